@@ -369,11 +369,10 @@ func runC12(c *Ctx) {
 				if via == "convert_rowgroup_rows" {
 					prows, err = rowGroupRows(crg, gen.Pick(r, []int{1, 64}))
 				} else {
-					// through the column chunks: copy into a buffer of the target schema
-					b := parquet.NewBuffer(dstSchema)
-					if _, err = b.WriteRowGroup(crg); err == nil {
-						prows, err = rowGroupRows(b, 64)
-					}
+					// through the column chunks the converted row group publishes (ColumnChunks(), not Rows())
+					rr := parquet.NewRowGroupRowReader(crg)
+					prows, err = readRowsAll(rr, 64)
+					rr.Close()
 				}
 				if err != nil {
 					rerr = err
